@@ -172,6 +172,62 @@ fn check_pair(a: &[u8], b: &[u8], j: &[u8], joined: &mut Vec<u8>, acc: &mut Acc)
     }
 }
 
+/// the record iterator's protocol (nth / skip / step_by / last / count / size_hint agree with repeated next()) on
+/// every file of <= 4 lines over an 8-line alphabet (incl. two records sharing a physical line, malformed and blank
+/// lines) x 4 terminators, with and without the final terminator
+const PROTO_LINES: [&str; 8] = ["Foo -> a:", "Foo -> a:Bar -> b:", "    int f -> y", "    1:2:void m():3 -> z", "not a record", "", "# {\"id\":\"sourceFile\",\"fileName\":\"X.kt\"}# c", "# comment"];
+pub fn protocol_one(s: &[u8], acc: &mut Acc) {
+    acc.states += 1;
+    acc.observations += 1;
+    match guarded(|| {
+        crate::iterp::iter_protocol(&|| ProguardMapping::new(s).iter(), &|r| format!("{:?}", r), s.len() + 2)
+            .or_else(|| crate::iterp::iter_clone_protocol(&|| ProguardMapping::new(s).iter(), &|r| format!("{:?}", r), s.len() + 2))
+            .or_else(|| {
+                // the same through a cloned mapping handle and through section(0..len)
+                let m = ProguardMapping::new(s);
+                let base: Vec<String> = m.iter().map(|r| format!("{:?}", r)).collect();
+                let c: Vec<String> = m.clone().iter().map(|r| format!("{:?}", r)).collect();
+                let w: Vec<String> = m.section(0..s.len()).iter().map(|r| format!("{:?}", r)).collect();
+                if c != base {
+                    Some(format!("a cloned ProguardMapping iterates {:?}, the original {:?}", c, base))
+                } else if w != base {
+                    Some(format!("section(0..len) iterates {:?}, the mapping itself {:?}", w, base))
+                } else {
+                    None
+                }
+            })
+    }) {
+        Ok(None) => {}
+        Ok(Some(d)) => acc.violation("iterator-protocol", s.len(), || (format!("ProguardMapping::iter() on {:?}: {}", esc(s), d), json!({"kind":"protocol","text":esc(s)}))),
+        Err(p) => acc.violation(format!("panic:{}", panic_site(&p)), s.len(), || (format!("panic {} (iterator protocol) on {:?}", p, esc(s)), json!({"kind":"protocol","text":esc(s)}))),
+    }
+}
+pub fn protocol_family(acc: &mut Acc) {
+    fn rec(buf: &mut Vec<u8>, left: usize, term: &[u8], acc: &mut Acc) {
+        protocol_one(buf, acc);
+        if buf.ends_with(term) && !buf.is_empty() {
+            let n = buf.len() - term.len();
+            let cut = buf[..n].to_vec();
+            protocol_one(&cut, acc);
+        }
+        if left == 0 {
+            return;
+        }
+        for l in PROTO_LINES {
+            let n = buf.len();
+            buf.extend_from_slice(l.as_bytes());
+            buf.extend_from_slice(term);
+            rec(buf, left - 1, term, acc);
+            buf.truncate(n);
+        }
+    }
+    for term in [&b"\n"[..], b"\r\n", b"\n\n", b"\r"] {
+        let mut buf = Vec::new();
+        rec(&mut buf, 4, term, acc);
+    }
+    acc.count("record-iterator protocol files", 1);
+}
+
 /// every split of one string at a line break (LF, lone CR, CRLF)
 fn check_splits(s: &[u8], joined: &mut Vec<u8>, acc: &mut Acc) {
     for (i, &c) in s.iter().enumerate() {
@@ -237,6 +293,37 @@ fn long_line_family(joined: &mut Vec<u8>, acc: &mut Acc) {
 /// error-run family: N consecutive malformed lines (N around 100 / 1000 / 10000 / 65536 / 100000) followed by
 /// ordinary lines - an iterator that "gives up" after a run of errors would drop what follows; also runs that are
 /// interrupted by one good line, and runs at the very start vs after a header
+/// what iter() yields is what has_line_info() / summary() are computed from (malformed lines cannot hide records)
+fn check_folds(a: &[u8], b: &[u8], joined: &[u8], acc: &mut Acc) {
+    acc.observations += 1;
+    let jb: &[u8] = joined;
+    let r = guarded(|| {
+        let m = ProguardMapping::new(jb);
+        let (mut li, mut classes, mut methods) = (false, 0usize, 0usize);
+        for r in m.iter().flatten() {
+            match r {
+                ProguardRecord::Class { .. } => classes += 1,
+                ProguardRecord::Method { line_mapping, .. } => {
+                    methods += 1;
+                    li |= line_mapping.is_some();
+                }
+                _ => {}
+            }
+        }
+        let s = m.summary();
+        if m.has_line_info() != li {
+            Some(format!("has_line_info() is {} but the record stream {} a method with a line mapping", m.has_line_info(), if li { "contains" } else { "does not contain" }))
+        } else if (s.class_count(), s.method_count()) != (classes, methods) {
+            Some(format!("summary() counts {} classes / {} methods, the record stream has {} / {}", s.class_count(), s.method_count(), classes, methods))
+        } else {
+            None
+        }
+    });
+    if let Ok(Some(d)) = r {
+        acc.violation("resync:folds-miss-records-behind-malformed-lines", 1, || (format!("A ({} bytes of malformed lines) + LF + B: {}", a.len(), d), case_pair(a, b, b"\n")));
+    }
+}
+
 fn error_run_family(joined: &mut Vec<u8>, acc: &mut Acc) {
     let tail: Vec<u8> = CUT_LINES.iter().flat_map(|l| l.bytes().chain(std::iter::once(b'\n'))).collect();
     for n in [99usize, 100, 101, 255, 256, 999, 1000, 1001, 4096, 9999, 10000, 10001, 65535, 65536, 100000] {
@@ -254,6 +341,7 @@ fn error_run_family(joined: &mut Vec<u8>, acc: &mut Acc) {
                 acc.count("error-run family pairs", 1);
                 if check_single(&a, acc) {
                     check_pair(&a, &tail, b"\n", joined, acc);
+                    check_folds(&a, &tail, joined, acc);
                 }
             }
         }
@@ -450,6 +538,7 @@ pub fn run(tier: Tier) -> i32 {
                     }
                 }
                 cut_family(&mut joined, acc);
+                protocol_family(acc);
                 long_line_family(&mut joined, acc);
                 error_run_family(&mut joined, acc);
             }
@@ -497,7 +586,7 @@ pub fn run(tier: Tier) -> i32 {
         prop: "C06",
         tier,
         level: "model_checking",
-        rule: format!("inputs enumerated exhaustively: all byte strings of length <= {} over the 9 symbols LF CR SP a : # 1 - >; all strings of <= {} tokens over the 19-token alphabet (UTF-8 byte order mark, backslash, single space, delimiters, sourceFile prefix, '\"}}', invalid UTF-8, Latin-1 'numeric' byte, 30-digit run); every split of each of them at LF / lone CR / CRLF; all pairs (A, B) with A <= {} tokens, B <= 2 tokens joined by LF (and by CR and CRLF with A one token shorter); the cut family (14 well-formed lines cut at every byte, x 3 contexts before x 2 after x 3 line breaks); the long-line family (malformed, well-formed and digit-run lines of 1023..2^20+16 bytes followed by ordinary lines); the error-run family (99..100000 consecutive malformed lines followed by ordinary lines); line-boundary splits of the corpus files. Oracle: iteration ends within len+1 items without panic, no yielded string contains CR/LF, records(A+linebreak+B) = records(A)++records(B) (Ok records exactly, Err items by offending line modulo terminator, zero-length error items ignored). states = strings / pairs / splits; distinct = distinct item streams", sym_depth, tok_depth, amax),
+        rule: format!("inputs enumerated exhaustively: all byte strings of length <= {} over the 9 symbols LF CR SP a : # 1 - >; all strings of <= {} tokens over the 19-token alphabet (UTF-8 byte order mark, backslash, single space, delimiters, sourceFile prefix, '\"}}', invalid UTF-8, Latin-1 'numeric' byte, 30-digit run); every split of each of them at LF / lone CR / CRLF; all pairs (A, B) with A <= {} tokens, B <= 2 tokens joined by LF (and by CR and CRLF with A one token shorter); the cut family (14 well-formed lines cut at every byte, x 3 contexts before x 2 after x 3 line breaks); the long-line family (malformed, well-formed and digit-run lines of 1023..2^20+16 bytes followed by ordinary lines); the error-run family (99..100000 consecutive malformed lines followed by ordinary lines); line-boundary splits of the corpus files; the iterator-protocol family (every file of <= 4 lines over an 8-line alphabet x 4 terminators: nth / skip / step_by / last / count / size_hint and partial consumption must see the items of repeated next(), i.e. skipping k items of A + linebreak + B skips exactly k items). Oracle: iteration ends within len+1 items without panic, no yielded string contains CR/LF, records(A+linebreak+B) = records(A)++records(B) (Ok records exactly, Err items by offending line modulo terminator, zero-length error items ignored). states = strings / pairs / splits; distinct = distinct item streams", sym_depth, tok_depth, amax),
         bounds: json!({"byte_string_length": sym_depth, "token_string_depth": tok_depth, "pairs": {"A_tokens": amax, "B_tokens": 2}, "tokens": TOKENS.iter().map(|t| esc(t)).collect::<Vec<_>>(), "corpus": "small files: every line boundary; the two files > 100 kB: every 1024th (quick) / 32nd (thorough) line boundary - that part is a stride, not exhaustive"}),
         assumptions: vec!["reading I3: a zero-length error item (blank tail after an error line) is not a malformed line".into()],
         trusted_base: vec!["rustc/std".into(), "Debug formatting of ProguardRecord for exact comparison of Ok records".into()],
@@ -509,6 +598,10 @@ pub fn recheck(case: &Value) -> Vec<String> {
     let mut acc = Acc::new();
     let mut joined = Vec::new();
     match case["kind"].as_str().unwrap_or("") {
+        "protocol" => {
+            let s = unesc(case["text"].as_str().unwrap_or(""));
+            protocol_one(&s, &mut acc);
+        }
         "bytes" => {
             let s = unesc(case["text"].as_str().unwrap_or(""));
             if check_single(&s, &mut acc) {
@@ -522,6 +615,8 @@ pub fn recheck(case: &Value) -> Vec<String> {
             check_single(&a, &mut acc);
             check_single(&b, &mut acc);
             check_pair(&a, &b, &j, &mut joined, &mut acc);
+            let jb = joined.clone();
+            check_folds(&a, &b, &jb, &mut acc);
         }
         "corpus-split" => {
             if let Ok(bytes) = std::fs::read(case["file"].as_str().unwrap_or("")) {
